@@ -52,7 +52,7 @@ def run(ctx):
     ix = ctx.ix
     ctx.rule("R17.1", "quote and execute paths price with the same function on the same operands and use the result unchanged", 4)
     ctx.rule("R17.2", "reserve writer gets (requested amount on the requested side, priced amount on the other side, direction plumbing)", 2)
-    ctx.rule("R17.3", "limit tests on success paths match the table; zero limit skips the test", 4)
+    ctx.rule("R17.3", "limit tests on success paths match the table; zero limit skips the test; a zero-amount swap cannot satisfy a non-zero receive limit", 6)
     ctx.rule("R17.5", "engine forwards the caller's limit unchanged into the vAMM message", 4)
 
     pairs = [("SwapInput", "quote_asset_amount", "InputAmount", "amount", "base_asset_limit"),
@@ -176,6 +176,34 @@ def run(ctx):
             seen.add(("limit", direction))
         ctx.inst("R17.3", "limit-table:%s" % xvar, bad is None and ("limit", "AddToAmm") in seen and ("limit", "RemoveFromAmm") in seen, xa.fn.where(),
                  "success-path classes %s; %s" % (sorted(str(x) for x in seen), bad or "receive => amount >= limit, owe => amount <= limit, zero => untested"))
+        # zero-amount swaps: nothing is exchanged, so a non-zero limit that demands to RECEIVE something cannot be met
+        zbad = None
+        zn = 0
+        for q in xa.ok_paths():
+            if any(e.target is not None and e.target.pretty in xt for e in q.events):
+                continue
+            zn += 1
+            limit_zero = None
+            direction = None
+            for (at, o, _b, _l) in q.conds:
+                a2 = xa.s(at)
+                if tag(a2) == "op":
+                    nm = payload(a2)[0]
+                    ks = kids(a2)
+                    if nm == "is_zero" and ks[0] == lim:
+                        limit_zero = o
+                    if nm == "discr" and ks[0] == d and o[0] == "variant":
+                        direction = o[1]
+                    if nm == "eq" and len(ks) == 2:
+                        for u, v in ((ks[0], ks[1]), (ks[1], ks[0])):
+                            if u == d and tag(v) == "agg":
+                                direction = payload(v)[1] if o is True else ("RemoveFromAmm" if payload(v)[1] == "AddToAmm" else "AddToAmm")
+            if limit_zero is True:
+                continue
+            if direction is None or direction == "AddToAmm":
+                zbad = zbad or "a swap of amount zero succeeds with a non-zero limit on the receiving side (direction %s): the trader receives 0 < limit" % direction
+        ctx.inst("R17.3", "limit-on-zero-amount:%s" % xvar, zbad is None and zn > 0, xa.fn.where(),
+                 zbad or "%d zero-amount success paths: limit zero, or the trader is on the owing side (0 <= limit)" % zn)
         # strictness: rejecting paths reject only on strict violation
         strict_bad = None
         for p in ix.paths(xa.fn):
